@@ -99,20 +99,34 @@ def bytesLt : List UInt8 → List UInt8 → Bool
 
 def bytesLe (a b : List UInt8) : Bool := !bytesLt b a
 
+/-- number of bucket entries whose serialized form is `k` (`counts[k]`) -/
+def countKey (keyed : List (List UInt8 × SV)) (k : List UInt8) : Nat :=
+  (keyed.filter (fun e => e.1 == k)).length
+
+/-- the loop over the sorted keys: a key replaces the current mode only with a strictly larger count -/
+def pickMode (cnt : List UInt8 → Nat) (keys : List (List UInt8)) : List UInt8 × Nat :=
+  keys.foldl (fun acc k => if cnt k > acc.2 then (k, cnt k) else acc) ([], 0)
+
+/-- bucket entries with their serialized form (`value.MarshalBinary()`) -/
+def keyedOf (bucket : List SV) : List (List UInt8 × SV) := bucket.map fun v => (marshalSV v, v)
+
+/-- `keys := maps.Keys(counts); slices.Sort(keys)` -/
+def sortedKeys (keyed : List (List UInt8 × SV)) : List (List UInt8) :=
+  (keyed.map (·.1)).eraseDups.mergeSort bytesLe
+
+/-- (modeSerialized, modeCount) -/
+def modeOf (keyed : List (List UInt8 × SV)) : List UInt8 × Nat :=
+  pickMode (countKey keyed) (sortedKeys keyed)
+
 /-- `ModeAggregator`.  Counting is by serialized value; keys are visited in ascending byte order
     and a key replaces the current mode only with a strictly larger count. -/
 def modeAgg (values : List (Option SV)) (f : Nat) : GoRes (Option SV) :=
-  let (_, bucket) := mostCommonType values
-  let keyed : List (List UInt8 × SV) := bucket.map fun v => (marshalSV v, v)
-  let keys : List (List UInt8) := (keyed.map (·.1)).eraseDups.mergeSort bytesLe
-  let (modeKey, modeCount) := keys.foldl
-    (fun (acc : List UInt8 × Nat) k =>
-      let c := (keyed.filter (fun e => e.1 == k)).length
-      if c > acc.2 then (k, c) else acc) ([], 0)
-  if modeCount < f + 1 then .err "not-enough"
-  else if modeKey.isEmpty then .ok none
+  let keyed := keyedOf (mostCommonType values).2
+  let m := modeOf keyed
+  if m.2 < f + 1 then .err "not-enough"
+  else if m.1.isEmpty then .ok none
   else
-    match keyed.find? (fun e => e.1 == modeKey) with
+    match keyed.find? (fun e => e.1 == m.1) with
     | some e => .ok (some e.2)   -- `UnmarshalProtoStreamValue` of the winning bytes
     | none => .err "unmarshal"
 
